@@ -1,7 +1,7 @@
 //! property: C05
 //! unit: V-C05-roc-points
 //! tier: quick
-//! fns: linfa::metrics_classification::BinaryClassification::roc (the loop that turns the score-sorted (score, label) pairs into cumulative (tp, fp) points)
+//! fns: linfa::metrics_classification::BinaryClassification::roc (the pair list: zip, filter, sort; and the loop that turns the score-sorted (score, label) pairs into cumulative (tp, fp) points)
 //@ extract ROC from src/metrics_classification.rs anchor "let (mut tp, mut fp) = (0.0, 0.0);" until "let (max_tp, max_fp) = (tp, fp);"
 //@ rewrite ROC "let (mut tp, mut fp) = (0.0, 0.0);" => "let (mut tp, mut fp) = (CountTok::zero(), CountTok::zero());"
 //@ rewrite ROC "for (s, t) in tuples {" => "for idx in 0..tuples.len() { let (s, t) = tuples[idx];   /* by-value iteration over the sorted Vec, as an index loop */"
@@ -14,6 +14,13 @@
 //@ rewrite ROC "s0 = *s;" => "s0 = s;"
 //@ insert ROC before-brace "for idx in 0..tuples.len() " : invariant tp.v@ == count_label(tuples@.subrange(0, idx as int), true), fp.v@ == count_label(tuples@.subrange(0, idx as int), false), tps_fps@.len() == thresholds@.len(), idx > 0 ==> tps_fps@.len() >= 1 && tps_fps@[0].0.v@ == 0 && tps_fps@[0].1.v@ == 0, (forall|j: int| 0 <= j < tps_fps@.len() ==> tps_fps@[j].0.v@ <= tp.v@ && tps_fps@[j].1.v@ <= fp.v@), (forall|a: int, b: int| 0 <= a <= b < tps_fps@.len() ==> tps_fps@[a].0.v@ <= tps_fps@[b].0.v@ && tps_fps@[a].1.v@ <= tps_fps@[b].1.v@),
 //@ insert ROC after "for idx in 0..tuples.len() " : proof { lemma_count_step(tuples@, idx as int); }
+//@ extract PRE from src/metrics_classification.rs anchor "let mut tuples = self" until "let (mut tp, mut fp) = (0.0, 0.0);"
+//@ rewrite PRE "let mut tuples = self" => "let mut tuples = scores"
+//@ rewrite PRE ".iter()" => ".iter_tok()"
+//@ rewrite PRE ".zip(y.iter_tok())" => ".zip_labels(y)"
+//@ rewrite PRE ".filter_map(|(a, b)| if **a >= 0.0 { Some((*a, *b)) } else { None })" => ".keep_nonneg_abs()   /* .filter_map(|(a, b)| if **a >= 0.0 { Some((*a, *b)) } else { None }): a Pr is never negative */"
+//@ rewrite PRE ".collect::<Vec<(Pr, bool)>>();" => ".collect_tok();"
+//@ drop PRE from "tuples.sort_unstable_by(&|a: &(Pr, _), b: &(Pr, _)| match a.0.partial_cmp(&b.0) {" through "});" as "        sort_by_score_abs(&mut tuples);   /* dropped: tuples.sort_unstable_by(&|a, b| a.0.partial_cmp(&b.0) ..) - ascending scores */"
 //@ expect-fail vacuity_guard_roc
 use vstd::prelude::*;
 verus! {
@@ -47,6 +54,38 @@ proof fn lemma_count_step(s: Seq<(ScoreTok, bool)>, i: int)
 {
     assert(s.subrange(0, i + 1).drop_last() =~= s.subrange(0, i));
     assert(s.subrange(0, i + 1).last() == s[i]);
+}
+
+// ---- roc(): from the two input slices to the sorted pair list, extracted from /repo on every run ----
+pub struct ScoresTok { pub v: Ghost<Seq<ScoreTok>> }
+pub struct LabelsTok { pub v: Ghost<Seq<bool>> }
+pub struct PairsTok { pub v: Ghost<Seq<(ScoreTok, bool)>> }
+pub open spec fn zipped(a: Seq<ScoreTok>, b: Seq<bool>) -> Seq<(ScoreTok, bool)> { Seq::new(if a.len() <= b.len() { a.len() } else { b.len() }, |i: int| (a[i], b[i])) }
+impl ScoresTok {
+    #[verifier::external_body] pub fn iter_tok(&self) -> (r: ScoresTok) ensures r.v@ == self.v@ { unimplemented!() }
+    #[verifier::external_body] pub fn zip_labels(self, y: &LabelsTok) -> (r: PairsTok) ensures r.v@ == zipped(self.v@, y.v@) { unimplemented!() }
+}
+impl PairsTok {
+    // ASSUMED about the filter closure `**a >= 0.0`: every probability (type Pr, range [0,1]) passes, so nothing is dropped
+    #[verifier::external_body] pub fn keep_nonneg_abs(self) -> (r: PairsTok) ensures r.v@ == self.v@ { unimplemented!() }
+    #[verifier::external_body] pub fn collect_tok(self) -> (r: Vec<(ScoreTok, bool)>) ensures r@ == self.v@ { unimplemented!() }
+}
+pub uninterp spec fn spec_score_le(a: ScoreTok, b: ScoreTok) -> bool;
+// ASSUMED about sort_unstable_by with the partial_cmp closure: a permutation in ascending score order
+#[verifier::external_body]
+pub fn sort_by_score_abs(v: &mut Vec<(ScoreTok, bool)>)
+    ensures final(v)@.to_multiset() == old(v)@.to_multiset(), final(v)@.len() == old(v)@.len(),
+        forall|a: int, b: int| 0 <= a <= b < final(v)@.len() ==> spec_score_le(final(v)@[a].0, final(v)@[b].0),
+{ unimplemented!() }
+// contract: the list handed to the point construction holds EVERY (score, label) pair of the input exactly once (no sample is left out
+// of the rank statistic - in particular none with a boundary score 0 or 1) in ascending score order
+fn roc_pairs(scores: &ScoresTok, y: &LabelsTok) -> (r: Vec<(ScoreTok, bool)>)
+    requires scores.v@.len() == y.v@.len(),
+    ensures r@.to_multiset() == zipped(scores.v@, y.v@).to_multiset(), r@.len() == scores.v@.len(),
+        forall|a: int, b: int| 0 <= a <= b < r@.len() ==> spec_score_le(r@[a].0, r@[b].0),
+{
+/*@PRE*/
+    tuples
 }
 
 // ---- roc(): the point-construction statements, extracted from /repo on every run ----
